@@ -1,1 +1,259 @@
-(* Proofs/CFun.v -- stub, to be filled in *)
+(* Proofs/CFun.v -- real-analysis lemmas about the model Model/CFun.v: modulus/argument decomposition,
+   exp/ln, sqrt, principal ranges, powers, polar form. *)
+From Coq Require Import Reals Lra.
+From OV Require Import Model.CFun Proofs.CFunArg.
+Local Open Scope R_scope.
+
+(* ---------- pairs ---------- *)
+Lemma C_eta (z : C) : z = (re z, im z).
+Proof. destruct z; reflexivity. Qed.
+
+Lemma C_ext (z : C) a b : a = re z -> b = im z -> (a, b) = z.
+Proof. destruct z; cbn [re im fst snd]; intros; subst; reflexivity. Qed.
+
+Lemma C_neq0 (z : C) : z <> czero <-> (re z <> 0 \/ im z <> 0).
+Proof.
+  destruct z as [x y]; unfold czero; cbn [re im fst snd]. split.
+  - intros H. destruct (Req_dec x 0) as [Hx|Hx]; [|left; exact Hx].
+    destruct (Req_dec y 0) as [Hy|Hy]; [|right; exact Hy].
+    exfalso; apply H; subst; reflexivity.
+  - intros [H|H] E; inversion E; contradiction.
+Qed.
+
+Lemma abs_sqr_nonneg z : 0 <= abs_sqr z.
+Proof. unfold abs_sqr. nra. Qed.
+
+Lemma abs_sqr_pos z : z <> czero -> 0 < abs_sqr z.
+Proof. intros H. apply C_neq0 in H. unfold abs_sqr. destruct H; nra. Qed.
+
+Lemma abs_sqr_neq0 z : z <> czero -> abs_sqr z <> 0.
+Proof. intros H. apply abs_sqr_pos in H. lra. Qed.
+
+Lemma cabs_pos z : z <> czero -> 0 < cabs z.
+Proof. intros H. unfold cabs. apply sqrt_lt_R0, abs_sqr_pos, H. Qed.
+
+Lemma cabs_nonneg z : 0 <= cabs z.
+Proof. unfold cabs. apply sqrt_pos. Qed.
+
+Lemma cabs_sqr z : cabs z * cabs z = abs_sqr z.
+Proof. unfold cabs. apply sqrt_sqrt, abs_sqr_nonneg. Qed.
+
+(* ---------- modulus / argument ---------- *)
+Lemma sqrt_factor x y : 0 < x -> sqrt (x * x + y * y) = x * sqrt (1 + (y / x)²).
+Proof.
+  intros Hx.
+  replace (x * x + y * y) with (x * x * (1 + (y / x)²)) by (unfold Rsqr; field; lra).
+  rewrite sqrt_mult_alt by nra. rewrite sqrt_square by lra. reflexivity.
+Qed.
+
+Lemma sqrt_1_sqr_pos t : 0 < sqrt (1 + t²).
+Proof. apply sqrt_lt_R0. unfold Rsqr. nra. Qed.
+
+Lemma polar_xpos x y : 0 < x ->
+  sqrt (x * x + y * y) * cos (atan (y / x)) = x /\ sqrt (x * x + y * y) * sin (atan (y / x)) = y.
+Proof.
+  intros Hx. rewrite sqrt_factor by assumption. rewrite cos_atan, sin_atan.
+  pose proof (sqrt_1_sqr_pos (y / x)) as Hs.
+  split; field; lra.
+Qed.
+
+Lemma atan_nonpos t : t <= 0 -> atan t <= 0.
+Proof.
+  intros [H|H].
+  - left. rewrite <- atan_0. apply atan_increasing; assumption.
+  - subst. rewrite atan_0. lra.
+Qed.
+
+Lemma atan_pos t : 0 < t -> 0 < atan t.
+Proof. intros H. rewrite <- atan_0. apply atan_increasing; assumption. Qed.
+
+Lemma div_neg_nonneg x y : x < 0 -> 0 <= y -> y / x <= 0.
+Proof. intros Hx Hy. pose proof (Rinv_lt_0_compat x Hx). unfold Rdiv. nra. Qed.
+
+Lemma div_neg_neg x y : x < 0 -> y < 0 -> 0 < y / x.
+Proof. intros Hx Hy. pose proof (Rinv_lt_0_compat x Hx). unfold Rdiv. nra. Qed.
+
+Lemma polar_decomp_lemma z : z <> czero ->
+  cabs z * cos (arg z) = re z /\ cabs z * sin (arg z) = im z /\ - PI < arg z <= PI.
+Proof.
+  intros Hz. apply C_neq0 in Hz. destruct z as [x y]. unfold cabs, arg, abs_sqr in *. cbn [re im fst snd] in *.
+  pose proof PI_RGT_0 as Hpi.
+  destruct (Rtotal_order x 0) as [Hx | [Hx | Hx]].
+  - (* x < 0 *)
+    assert (Hnx : 0 < - x) by lra.
+    destruct (polar_xpos (- x) (- y) Hnx) as [Hc Hs].
+    replace (- x * - x + - y * - y) with (x * x + y * y) in Hc, Hs by ring.
+    replace (- y / - x) with (y / x) in Hc, Hs by (field; lra).
+    pose proof (atan_bound (y / x)) as Hb.
+    destruct (Rle_dec 0 y) as [Hy | Hy].
+    + rewrite atan2_xneg_ynonneg by assumption.
+      rewrite neg_cos, neg_sin.
+      pose proof (atan_nonpos _ (div_neg_nonneg x y Hx Hy)).
+      repeat split; lra.
+    + assert (Hy' : y < 0) by lra.
+      rewrite atan2_xneg_yneg by assumption.
+      replace (atan (y / x) - PI) with (- (PI - atan (y / x))) by ring.
+      rewrite cos_neg, sin_neg.
+      replace (PI - atan (y / x)) with (- atan (y / x) + PI) by ring.
+      rewrite neg_cos, neg_sin, cos_neg, sin_neg.
+      pose proof (atan_pos _ (div_neg_neg x y Hx Hy')).
+      repeat split; lra.
+  - (* x = 0 *)
+    subst x. replace (0 * 0 + y * y) with (y * y) by ring.
+    destruct Hz as [Hz | Hz]; [lra|].
+    destruct (Rtotal_order y 0) as [Hy | [Hy | Hy]]; [| lra |].
+    + rewrite atan2_x0_yneg by lra.
+      rewrite cos_neg, sin_neg, cos_PI2, sin_PI2.
+      replace (y * y) with (- y * - y) by ring. rewrite sqrt_square by lra.
+      repeat split; lra.
+    + rewrite atan2_x0_ypos by lra.
+      rewrite cos_PI2, sin_PI2, sqrt_square by lra.
+      repeat split; lra.
+  - (* 0 < x *)
+    rewrite atan2_xpos by assumption.
+    destruct (polar_xpos x y Hx) as [Hc Hs].
+    pose proof (atan_bound (y / x)) as Hb.
+    repeat split; lra.
+Qed.
+
+Lemma arg_range z : - PI < arg z <= PI.
+Proof.
+  destruct (C_neq0 z) as [_ H].
+  destruct (Req_dec (re z) 0) as [Hx|Hx]; [destruct (Req_dec (im z) 0) as [Hy|Hy]|].
+  - unfold arg. rewrite Hx, Hy, atan2_0_0. pose proof PI_RGT_0. lra.
+  - apply polar_decomp_lemma, H; right; exact Hy.
+  - apply polar_decomp_lemma, H; left; exact Hx.
+Qed.
+
+(* z = |z| (cos (arg z), sin (arg z)) *)
+Lemma polar_form z : z <> czero -> z = cmul_r (cos (arg z), sin (arg z)) (cabs z).
+Proof.
+  intros Hz. destruct (polar_decomp_lemma z Hz) as (Hc & Hs & _).
+  rewrite (C_eta z) at 1. unfold cmul_r. cbn [re im fst snd].
+  f_equal; lra.
+Qed.
+
+(* ---------- exp / ln ---------- *)
+Lemma exp_ln_lemma z : z <> czero -> cexp (cln z) = z.
+Proof.
+  intros Hz. destruct (polar_decomp_lemma z Hz) as (Hc & Hs & _).
+  unfold cexp, cln. cbn [re im fst snd].
+  rewrite exp_ln by (apply cabs_pos, Hz).
+  apply C_ext; assumption.
+Qed.
+
+Lemma im_ln_range_lemma z : - PI < im (cln z) <= PI.
+Proof. unfold cln. cbn [im snd]. apply arg_range. Qed.
+
+(* ---------- sqrt ---------- *)
+Lemma re_sqrt_nonneg_lemma z : 0 <= re (csqrt z).
+Proof.
+  unfold csqrt. cbn [re fst].
+  apply Rmult_le_pos; [apply sqrt_pos|].
+  pose proof (arg_range z). apply cos_ge_0; lra.
+Qed.
+
+Lemma sqrt_sqr_lemma z : cmul (csqrt z) (csqrt z) = z.
+Proof.
+  destruct (C_neq0 z) as [_ H].
+  assert (Hz : z = czero \/ z <> czero).
+  { destruct (Req_dec (re z) 0) as [Hx|Hx]; [destruct (Req_dec (im z) 0) as [Hy|Hy]|].
+    - left. rewrite (C_eta z), Hx, Hy. reflexivity.
+    - right. apply H. right; exact Hy.
+    - right. apply H. left; exact Hx. }
+  destruct Hz as [Hz|Hz].
+  - subst z. unfold csqrt, cmul, cabs, abs_sqr, czero. cbn [re im fst snd].
+    replace (0 * 0 + 0 * 0) with 0 by ring. rewrite sqrt_0, sqrt_0. f_equal; ring.
+  - destruct (polar_decomp_lemma z Hz) as (Hc & Hs & _).
+    unfold csqrt, cmul. cbn [re im fst snd].
+    set (t := arg z) in *. set (r := cabs z) in *.
+    assert (Hr : sqrt r * sqrt r = r) by (apply sqrt_sqrt, cabs_nonneg).
+    set (s := sqrt r) in *.
+    assert (Hcos : cos t = cos (1 / 2 * t) * cos (1 / 2 * t) - sin (1 / 2 * t) * sin (1 / 2 * t)).
+    { replace t with (1 / 2 * t + 1 / 2 * t) at 1 by field. apply cos_plus. }
+    assert (Hsin : sin t = 2 * sin (1 / 2 * t) * cos (1 / 2 * t)).
+    { replace t with (2 * (1 / 2 * t)) at 1 by field. apply sin_2a. }
+    apply C_ext.
+    + rewrite <- Hc, Hcos, <- Hr. ring.
+    + rewrite <- Hs, Hsin, <- Hr. ring.
+Qed.
+
+(* ---------- powers ---------- *)
+Lemma ln_abs_sqr z : z <> czero -> ln (abs_sqr z) = 2 * ln (cabs z).
+Proof.
+  intros Hz. rewrite <- cabs_sqr. pose proof (cabs_pos z Hz).
+  rewrite ln_mult by assumption. ring.
+Qed.
+
+Lemma pow_is_exp_ln_lemma z w : z <> czero -> cpow z w = cexp (cmul w (cln z)).
+Proof.
+  intros Hz. unfold cpow, cexp, cmul, cln. cbn [re im fst snd].
+  unfold Rpower. rewrite (ln_abs_sqr z Hz).
+  rewrite <- exp_plus.
+  replace (1 / 2 * re w * (2 * ln (cabs z)) + - im w * arg z)
+    with (re w * ln (cabs z) - im w * arg z) by field.
+  replace (re w * arg z + 1 / 2 * im w * (2 * ln (cabs z)))
+    with (re w * arg z + im w * ln (cabs z)) by field.
+  reflexivity.
+Qed.
+
+Lemma powf_is_pow_lemma z x : cpowf z x = cpow z (x, 0).
+Proof.
+  unfold cpowf, cpow. cbn [re im fst snd].
+  replace (- 0 * arg z) with 0 by ring. rewrite exp_0.
+  replace (x * arg z + 1 / 2 * 0 * ln (abs_sqr z)) with (x * arg z) by ring.
+  f_equal; ring.
+Qed.
+
+(* ---------- polar form ---------- *)
+Lemma polar_roundtrip_lemma z : z <> czero -> cpolar (cabs z) (arg z) = z.
+Proof.
+  intros Hz. destruct (polar_decomp_lemma z Hz) as (Hc & Hs & _).
+  unfold cpolar. apply C_ext; assumption.
+Qed.
+
+Lemma cabs_polar r t : 0 <= r -> cabs (cpolar r t) = r.
+Proof.
+  intros Hr. unfold cabs, abs_sqr, cpolar. cbn [re im fst snd].
+  replace (r * cos t * (r * cos t) + r * sin t * (r * sin t))
+    with (r * r * ((sin t)² + (cos t)²)) by (unfold Rsqr; ring).
+  rewrite sin2_cos2, Rmult_1_r. apply sqrt_square, Hr.
+Qed.
+
+(* an angle in (-PI, PI] is determined by its cosine and sine *)
+Lemma angle_unique a b : - PI < a <= PI -> - PI < b <= PI -> cos a = cos b -> sin a = sin b -> a = b.
+Proof.
+  intros Ha Hb Hc Hs.
+  assert (Hs0 : sin (a - b) = 0) by (rewrite sin_minus, Hc, Hs; ring).
+  assert (Hc1 : cos (a - b) = 1).
+  { rewrite cos_minus, Hc, Hs. pose proof (sin2_cos2 b) as H. unfold Rsqr in H. lra. }
+  pose proof PI_RGT_0 as Hpi.
+  destruct (Rle_dec 0 (a - b)) as [Hd|Hd].
+  - destruct (sin_eq_O_2PI_0 (a - b)) as [H|[H|H]]; try lra.
+    rewrite H, cos_PI in Hc1. lra.
+  - assert (Hs0' : sin (b - a) = 0).
+    { replace (b - a) with (- (a - b)) by ring. rewrite sin_neg, Hs0. ring. }
+    assert (Hc1' : cos (b - a) = 1).
+    { replace (b - a) with (- (a - b)) by ring. rewrite cos_neg. exact Hc1. }
+    destruct (sin_eq_O_2PI_0 (b - a)) as [H|[H|H]]; try lra.
+    rewrite H, cos_PI in Hc1'. lra.
+Qed.
+
+Lemma polar_neq0 r t : 0 < r -> cpolar r t <> czero.
+Proof.
+  intros Hr H. pose proof (cabs_polar r t (Rlt_le _ _ Hr)) as Ha.
+  rewrite H in Ha. unfold cabs, abs_sqr, czero in Ha. cbn [re im fst snd] in Ha.
+  replace (0 * 0 + 0 * 0) with 0 in Ha by ring. rewrite sqrt_0 in Ha. lra.
+Qed.
+
+Lemma arg_polar r t : 0 < r -> - PI < t <= PI -> arg (cpolar r t) = t.
+Proof.
+  intros Hr Ht.
+  pose proof (polar_neq0 r t Hr) as Hz.
+  destruct (polar_decomp_lemma _ Hz) as (Hc & Hs & Hrg).
+  rewrite cabs_polar in Hc, Hs by lra.
+  unfold cpolar in Hc at 2. unfold cpolar in Hs at 2. cbn [re im fst snd] in Hc, Hs.
+  apply angle_unique; try assumption.
+  - apply (Rmult_eq_reg_l r); lra.
+  - apply (Rmult_eq_reg_l r); lra.
+Qed.
